@@ -9,7 +9,7 @@ replaced by a namespace whose `socket()` factory returns FakeSock objects.
 import errno
 import socket as real_socket
 
-RES = ["C0", "CISCONN", "CINPROGRESS", "CALREADY", "CREFUSED", "CINVAL", "COTHER"]
+RES = ["C0", "CISCONN", "CINPROGRESS", "CALREADY", "CREFUSED", "CINVAL", "COTHER", "CRAISE", "CNAMERR"]
 OTHERS = [errno.ETIMEDOUT, errno.EHOSTUNREACH, errno.ENETUNREACH, errno.EAGAIN, errno.EINTR]
 LBASE, PBASE, HA0 = 40000, 50000, 7
 TICK = 0.125   # seconds per model time unit (exact in binary64)
@@ -46,6 +46,7 @@ class FakeSock(object):
         world.nsock += 1
         self.k = 0
         self.closed = False
+        self.name_fail = False
         world.evs += [1, self.sid]
         world.socks.append(self)
 
@@ -63,9 +64,17 @@ class FakeSock(object):
         name = self.w.result(self.sid, self.k)
         self.w.evs += [3, self.sid, self.k, RES.index(name)]
         self.k += 1
+        if name == "CRAISE":      # connect_ex itself raises (address-level error)
+            raise real_socket.error(errno.EADDRNOTAVAIL, "cannot assign requested address")
+        if name == "CNAMERR":     # connect_ex succeeds, the following getsockname raises
+            self.name_fail = True
+            return 0
         return self.w.errno_of(name)
 
     def getsockname(self):
+        if self.name_fail:
+            self.name_fail = False
+            raise real_socket.error(errno.ENOTCONN, "not connected")
         return ('127.0.0.1', LBASE + self.sid)
 
     def getpeername(self):
@@ -112,6 +121,8 @@ def run_impl(drv, rc, tmo, table, dflt, ticks):
     from ioflo.base import storing
     w = World(table, dflt)
     saved = clienting.socket
+    saved_verb = clienting.console._verbosity
+    clienting.console.reinit(verbosity=0)      # accept() reports a raising connect_ex on the console
     clienting.socket = FakeSocketModule(w)
     try:
         store = storing.Store(stamp=0.0)
@@ -137,16 +148,20 @@ def run_impl(drv, rc, tmo, table, dflt, ticks):
 
         out = obs()
         connected_at = []
+        raises = 0
         for i, (dt, cut) in enumerate(ticks):
             store.stamp = store.stamp + dt * TICK
             if cut:
                 w.cut_pending = True
                 client.serviceReceives()
                 w.cut_pending = False
-            if drv == "Bare":
-                client.serviceConnect()
-            else:
-                top.serviceAll()
+            try:
+                if drv == "Bare":
+                    client.serviceConnect()
+                else:
+                    top.serviceAll()
+            except real_socket.error:
+                raises += 1    # connect_ex / getsockname raised: propagates out of the service call
             o = obs()
             out += o
             connected_at.append(bool(client.connected) and not client.cutoff)
@@ -154,7 +169,8 @@ def run_impl(drv, rc, tmo, table, dflt, ticks):
         info = {"connected_at": connected_at, "ca": addr(client.ca), "ha": addr(client.ha),
                 "sid": client.cs.sid if client.cs is not None else -1,
                 "lha": addr(top.local.ha) if drv == "Stack" else -1,
-                "opens": w.nsock, "cutoff": bool(client.cutoff), "accepted": bool(client.accepted)}
+                "opens": w.nsock, "raises": raises, "cutoff": bool(client.cutoff), "accepted": bool(client.accepted)}
         return out, info
     finally:
         clienting.socket = saved
+        clienting.console.reinit(verbosity=saved_verb)
